@@ -3,10 +3,11 @@ package locRIB
 // C04 — Loc-RIB clients hold exactly the selected paths they asked for
 // (sequential part, engine E4).
 //
-// Real LocRIB + recording RouteTableClients. For every ordered pair of client
-// options from {BestOnly, EcmpOnly, MaxPaths 1..4} an explicit-state BFS runs
-// over all sequences of
-//   AddPath / RemovePath / ReplacePath on the Loc-RIB (2 prefixes x 5 paths),
+// Real LocRIB + recording RouteTableClients. For every pair of client options
+// from {BestOnly, EcmpOnly, MaxPaths 1..4} an explicit-state BFS runs over all
+// sequences of
+//   AddPath / RemovePath / ReplacePath on the Loc-RIB (2 prefixes; 4 BGP paths
+//   B,E1,E2,W + static S [+ S2]; see zvC04Items for the per-tier alphabets),
 //   RegisterWithOptions / Unregister / RefreshClient per client, Dispose,
 // until the canonical state set closes. Every reached state is a quiescent
 // point; the oracle is evaluated on every one of them.
@@ -86,7 +87,7 @@ func (o zvC04Op) String() string {
 // zvC04Case is the replay artefact.
 type zvC04Case struct {
 	Universe string      `json:"universe"` // nested | siblings
-	NPaths   int         `json:"npaths"`   // size of the path alphabet (5, thorough 6)
+	Paths    [2][]int    `json:"paths"`    // path alphabet (indices into B,E1,E2,W,S,S2) of each prefix
 	Opts     [2]zvC04Opt `json:"options"`
 	Hist     []zvC04Op   `json:"history"`
 }
@@ -565,7 +566,7 @@ func (e *zvC04Env) Canon() string {
 type zvC04Explorer struct {
 	r        *vh.Run
 	universe string
-	npaths   int
+	paths    [2][]int
 	opts     [2]zvC04Opt
 	ops      []zvC04Op
 	label    string
@@ -573,21 +574,21 @@ type zvC04Explorer struct {
 	steps    int
 }
 
-func zvC04Alphabet(npaths int) []zvC04Op {
+func zvC04Alphabet(paths [2][]int) []zvC04Op {
 	var ops []zvC04Op
 	for p := 0; p < 2; p++ {
-		for x := 0; x < npaths; x++ {
+		for _, x := range paths[p] {
 			ops = append(ops, zvC04Op{Kind: "add", P: p, X: x})
 		}
 	}
 	for p := 0; p < 2; p++ {
-		for x := 0; x < npaths; x++ {
+		for _, x := range paths[p] {
 			ops = append(ops, zvC04Op{Kind: "remove", P: p, X: x})
 		}
 	}
 	for p := 0; p < 2; p++ {
-		for x := 0; x < npaths; x++ {
-			for y := 0; y < npaths; y++ {
+		for _, x := range paths[p] {
+			for _, y := range paths[p] {
 				if x != y {
 					ops = append(ops, zvC04Op{Kind: "replace", P: p, X: x, Y: y})
 				}
@@ -627,7 +628,7 @@ func zvC04Mixed(sel []string) bool {
 // state is to be expanded.
 func (x *zvC04Explorer) run(hist []zvC04Op, count bool, wantTrace bool) (canon string, enabled []zvC04Op, ok bool, trace string) {
 	r := x.r
-	cs := zvC04Case{x.universe, x.npaths, x.opts, hist}
+	cs := zvC04Case{x.universe, x.paths, x.opts, hist}
 	e := zvC04NewEnv(x.universe, x.opts[:])
 	var last zvC04Op
 	last.Kind = "init"
@@ -717,7 +718,7 @@ func (x *zvC04Explorer) run(hist []zvC04Op, count bool, wantTrace bool) (canon s
 	var absent, absent2 [2]int // lowest and second lowest absent path index
 	for pi := range e.Pfxs {
 		absent[pi], absent2[pi] = -1, -1
-		for i := 0; i < x.npaths; i++ {
+		for _, i := range x.paths[pi] {
 			if !zvC04Contains(sel[pi], zvC04PathNames[i]) {
 				if absent[pi] < 0 {
 					absent[pi] = i
@@ -860,7 +861,7 @@ var zvC04Required = []string{
 }
 
 func (x *zvC04Explorer) explore(maxDepth int) (int, int, bool) {
-	x.label = fmt.Sprintf("%s/%dpaths/%s+%s", x.universe, x.npaths, x.opts[0], x.opts[1])
+	x.label = fmt.Sprintf("%s/%s/%s+%s", x.universe, zvC04PathsLabel(x.paths), x.opts[0], x.opts[1])
 	b := vh.BFS[zvC04Op]{R: x.r, MaxDepth: maxDepth, MaxStates: 400000,
 		Label: x.label,
 		Step: func(h []zvC04Op) (string, []zvC04Op, bool) {
@@ -881,29 +882,49 @@ func (x *zvC04Explorer) explore(maxDepth int) (int, int, bool) {
 
 type zvC04Item struct {
 	universe string
-	npaths   int
+	paths    [2][]int
 	opts     [2]zvC04Opt
 }
 
+func zvC04PathsLabel(p [2][]int) string {
+	var sb strings.Builder
+	for pi := range p {
+		if pi > 0 {
+			sb.WriteString("|")
+		}
+		for _, x := range p[pi] {
+			sb.WriteString(zvC04PathNames[x])
+		}
+	}
+	return sb.String()
+}
+
+// zvC04Items lists the instantiations.
+// quick:    nested prefixes, first prefix with the full alphabet {B,E1,E2,W,S},
+//           second prefix with the equal-cost pair {E1,E2}; every unordered
+//           pair of options (the two clients are interchangeable: same
+//           alphabet for both).
+// thorough: every ordered pair of options x {nested, full alphabet on both
+//           prefixes; sibling prefixes, full alphabet on both; nested, first
+//           prefix with a second static path {B,E1,E2,W,S,S2}, second {E1,E2}}.
 func zvC04Items(thorough bool) []zvC04Item {
 	var out []zvC04Item
 	type cfg struct {
 		u string
-		n int
+		p [2][]int
 	}
-	cfgs := []cfg{{"nested", 5}}
+	full := []int{0, 1, 2, 3, 4}
+	cfgs := []cfg{{"nested", [2][]int{full, {1, 2}}}}
 	if thorough {
-		cfgs = []cfg{{"nested", 5}, {"siblings", 5}, {"nested", 6}}
+		cfgs = []cfg{{"nested", [2][]int{full, full}}, {"siblings", [2][]int{full, full}}, {"nested", [2][]int{{0, 1, 2, 3, 4, 5}, {1, 2}}}}
 	}
 	for _, c := range cfgs {
 		for ai, a := range zvC04Opts {
 			for bi, b := range zvC04Opts {
-				// the two clients are interchangeable (same alphabet for both), so
-				// the quick tier takes unordered pairs; thorough takes all ordered pairs
 				if bi < ai && !thorough {
 					continue
 				}
-				out = append(out, zvC04Item{c.u, c.n, [2]zvC04Opt{a, b}})
+				out = append(out, zvC04Item{c.u, c.p, [2]zvC04Opt{a, b}})
 			}
 		}
 	}
@@ -915,8 +936,9 @@ func TestVerifC04(t *testing.T) {
 	defer r.Finish()
 	// the live heap is tiny and the replays allocate a lot: collect less often
 	defer debug.SetGCPercent(debug.SetGCPercent(1000))
-	r.Rule("per (prefix universe, path alphabet, ordered pair of client options from {best, ecmp, max1..max4}): BFS over all sequences of " +
-		"AddPath/RemovePath/ReplacePath (2 prefixes x {B,E1,E2,W,S[,S2]}), RegisterWithOptions/Unregister/RefreshClient (2 clients), Dispose " +
+	r.Rule("per (prefix universe, path alphabet per prefix, pair of client options from {best, ecmp, max1..max4}; quick: nested prefixes, {B,E1,E2,W,S}|{E1,E2}, unordered pairs; " +
+		"thorough: ordered pairs x {nested full|full, siblings full|full, nested {B,E1,E2,W,S,S2}|{E1,E2}}): BFS over all sequences of " +
+		"AddPath/RemovePath/ReplacePath, RegisterWithOptions/Unregister/RefreshClient (2 clients), Dispose " +
 		"until the canonical state (Loc-RIB selection per prefix, registered set, accumulated set of every registered client) closes; " +
 		"oracle on every reached state; evaluations = transitions executed on the real Loc-RIB with the oracle evaluated on the reached state; " +
 		"non-trivial = distinct canonical states in which a registered client holds at least one path")
@@ -924,10 +946,7 @@ func TestVerifC04(t *testing.T) {
 	if r.IsReplay() {
 		var c zvC04Case
 		r.ReplayCase(&c)
-		if c.NPaths == 0 {
-			c.NPaths = 5
-		}
-		x := &zvC04Explorer{r: r, universe: c.Universe, npaths: c.NPaths, opts: c.Opts, ops: zvC04Alphabet(c.NPaths), nontriv: map[[16]byte]bool{}}
+		x := &zvC04Explorer{r: r, universe: c.Universe, paths: c.Paths, opts: c.Opts, ops: zvC04Alphabet(c.Paths), nontriv: map[[16]byte]bool{}}
 		for n := 0; n <= len(c.Hist); n++ {
 			_, _, ok, _ := x.run(c.Hist[:n], false, false)
 			if !ok {
@@ -950,7 +969,7 @@ func TestVerifC04(t *testing.T) {
 			r.Cap("time budget: not all instantiations explored")
 			break
 		}
-		x := &zvC04Explorer{r: r, universe: it.universe, npaths: it.npaths, opts: it.opts, ops: zvC04Alphabet(it.npaths), nontriv: map[[16]byte]bool{}}
+		x := &zvC04Explorer{r: r, universe: it.universe, paths: it.paths, opts: it.opts, ops: zvC04Alphabet(it.paths), nontriv: map[[16]byte]bool{}}
 		_, _, closed := x.explore(0)
 		closedAll = closedAll && closed
 	}
